@@ -88,7 +88,10 @@ CLAIMED = {
             'any_edit_session_keeps_transitions_anchored (every sequence of edits, succeeding or raising), built_charts_have_anchored_transitions; '
             'dictionaries_stay_consistent_* and any_edit_session_keeps_dictionaries_consistent (_states/_parent/_children: unique keys = the states, '
             'x in children(p) iff parent(x) = p, no repetition, one root, no self-parent — for all seven operations incl. the recursive remove_state, '
-            'any session, any chart built by the API). PARTIAL: acyclicity beyond no-self-parent and validate() after each edit are checked by the tie. ' + TIE, '§6 C16'),
+            'any session, any chart built by the API); no_reference_dangles_after_* / any_edit_session_leaves_no_dangling_reference (initial/memory name existing '
+            'states); validate_means (validate() on a consistent chart = every initial a child, every memory a sibling) and validate_passes_after_remove/_move/'
+            '_rename/_add, any_edit_session_keeps_validate_passing (states added without initial/memory). PARTIAL: acyclicity beyond no-self-parent and '
+            'the who-may-contain-what constraints after each edit are checked by the tie. ' + TIE, '§6 C16'),
     'C17': ('Lean 4 proof: rename substitutes exactly the transition ends, keeps internal transitions internal, is atomic + guest/copy correspondence',
             'rename_substitutes_transition_ends, rename_keeps_internal, rename_to_itself, rename_atomic; rename_is_substitution (the renamed chart is '
             'the chart with the name substituted everywhere, up to declaration order) and renamed_behaves_as_substituted (by C07: same runs); '
